@@ -57,6 +57,21 @@ def _repo_where():
     return ""
 
 
+def _has_quantifier(t):
+    stack = [t]
+    seen = set()
+    while stack:
+        x = stack.pop()
+        if x.get_id() in seen:
+            continue
+        seen.add(x.get_id())
+        if z3.is_quantifier(x):
+            return True
+        if z3.is_app(x):
+            stack.extend(x.children())
+    return False
+
+
 class PathCtx:
     def __init__(self, run, prefix):
         self.run = run
@@ -72,6 +87,7 @@ class PathCtx:
         self.axioms_seen = set()
         self.forced = 0
         self.derived = set()
+        self.tags = {}          # hypothesis term id -> tag (e.g. "inv:<label>")
         self.generic = []       # stack of (index var term, guard term): evaluation of a generic element
         self.generic_keep = []
         self.quiet = 0  # >0: safety obligations are not recorded (re-evaluation of pull closures)
@@ -111,18 +127,28 @@ class PathCtx:
         guard = z3.And(*[g[1] for g in self.generic])
         self.generic_keep.append(z3.ForAll(ks, z3.Implies(guard, t)))
 
-    def assume(self, cond):
+    def assume(self, cond, tag=None):
         if cond is True:
             return
         if cond is False:
             raise Infeasible()
         t = sym._term(cond)
+        if tag:
+            self.tags[t.get_id()] = tag
         if self.generic:
             self._generalise(t)
         self.hyps.append(t)
-        self.solver.add(t)
+        self._solver_add(t)
+
+    def _solver_add(self, t):
+        """the path solver (branch feasibility, `known`) sees the quantifier-free hypotheses only: fewer hypotheses
+        can only make more paths look feasible (sound), and the queries stay fast"""
+        if not _has_quantifier(t):
+            self.solver.add(t)
 
     def axiom(self, t, tag=""):
+        if self.quiet and not self.generic:
+            return   # inside the body of a quantified clause: instances at bound variables are of no use
         key = t.hash()
         if key in self.axioms_seen:
             return
@@ -131,7 +157,18 @@ class PathCtx:
         else:
             self._generalise(t)
         self.hyps.append(t)
-        self.solver.add(t)
+        self._solver_add(t)
+
+    def axiom_global(self, t, tag=""):
+        """a closed axiom (no path-local symbols): added once, never generalised"""
+        key = t.hash()
+        if key in self.axioms_seen:
+            return
+        self.axioms_seen.add(key)
+        self.hyps.insert(0, t)
+        self.n_global = getattr(self, "n_global", 0) + 1
+        if self.solver.num_scopes() == 0:
+            self._solver_add(t)
 
     def enter_generic(self, k, guard):
         """start evaluating an expression for a generic element index k (0 <= k < n [and filter])"""
@@ -141,10 +178,11 @@ class PathCtx:
         g = sym._term(guard)
         self.hyps.append(g)
         self.solver.add(g)
-        return (mark, len(self.generic_keep))
+        return (mark, len(self.generic_keep), getattr(self, "n_global", 0))
 
     def exit_generic(self, token):
-        mark, keep_mark = token
+        mark, keep_mark, ng = token
+        mark += getattr(self, "n_global", 0) - ng   # global axioms are inserted at the front meanwhile
         self.generic.pop()
         del self.hyps[mark:]
         self.solver.pop()
@@ -153,7 +191,7 @@ class PathCtx:
             del self.generic_keep[keep_mark:]
             for t in keep:
                 self.hyps.append(t)
-                self.solver.add(t)
+                self._solver_add(t)
 
     def note_uf(self, name, t):
         pass
@@ -215,18 +253,26 @@ class PathCtx:
         return True
 
     # ---- obligations ----------------------------------------------------
-    def prove(self, name, cond, kind="post", props=(), role="aux", note="", assume_after=True, where=None):
+    def prove(self, name, cond, kind="post", props=(), role="aux", note="", assume_after=True, where=None,
+              only_inv=None):
+        """only_inv: set of invariant-clause labels this obligation is declared to depend on; the other assumed
+        invariant clauses are left out of its hypotheses (dropping hypotheses is sound)"""
         if where is None:
             where = _repo_where()
         goal = sym._term(cond) if not isinstance(cond, bool) else z3.BoolVal(cond)
-        vc = VC(name, kind, list(self.hyps), goal, props, role, self.run.func_name, where, note,
+        hyps = list(self.hyps)
+        if only_inv is not None:
+            keep = {"inv:" + x for x in only_inv}
+            hyps = [h for h in hyps if not self.tags.get(h.get_id(), "").startswith("inv:")
+                    or self.tags[h.get_id()] in keep]
+        vc = VC(name, kind, hyps, goal, props, role, self.run.func_name, where, note,
                 path=self.run.path_no)
         vc.derived = tuple(i for i, h in enumerate(vc.hyps) if h.get_id() in self.derived)
         self.vcs.append(vc)
         if assume_after and not z3.is_true(goal):
             self.hyps.append(goal)
             self.derived.add(goal.get_id())
-            self.solver.add(goal)
+            self._solver_add(goal)
         return vc
 
     def safety(self, kind, cond, note="", quant=None):
